@@ -381,7 +381,10 @@ class TranscriptFeature(Feature):
     def construct_frames(self, cds_interval: Location) -> List[str]:
         """We need to build frames. Since GenBank lacks this info, do our best"""
         # make 0 based offset, if possible, otherwise assume always in frame
-        frame = int(self.cds_feature._seq_feature.qualifiers.get(KnownQualifiers.CODON_START.value, [1])[0]) - 1
+        try:
+            frame = int(self.cds_feature._seq_feature.qualifiers.get(KnownQualifiers.CODON_START.value, [1])[0]) - 1
+        except (ValueError, IndexError):
+            raise GenBankParserError(f"Invalid codon_start qualifier on CDS feature {self.cds_feature}")
         frame = CDSFrame.from_int(frame)
         frames = CDSInterval.construct_frames_from_location(cds_interval, frame)
         return [x.name for x in frames]
